@@ -84,8 +84,6 @@ func main() {
 			{"full(2,4)x7+dup", 7, 2, 4, nil, 80, []int{0}, 0},
 			{"full(2,4)x7+dup5", 7, 2, 4, nil, 80, []int{5}, 0},
 			{"full(2,5)x8", 8, 2, 5, nil, 80, nil, 0},
-			{"full(3,6)x9", 9, 3, 6, nil, 24, []int{0}, 0},
-			{"full(4,8)x9", 9, 4, 8, nil, 12, []int{0}, 0},
 			{"scaled-full(2,4)x7", 7, 2, 4, nil, 200, nil, 2},
 			{"seeds(2,4)x13", 13, 2, 4, seedOrders(13), 5, nil, 0},
 			{"spread-seeds(2,4)x13", 13, 2, 4, seedOrders(13), 6, nil, 1},
@@ -93,6 +91,9 @@ func main() {
 			{"spread-seeds(3,6)x16", 16, 3, 6, seedOrders(16), 3, nil, 1},
 			{"seeds(2,5)x16", 16, 2, 5, seedOrders(16), 4, nil, 0},
 			{"seeds(3,6)x16", 16, 3, 6, seedOrders(16), 4, nil, 0},
+			{"full(4,8)x9", 9, 4, 8, nil, 12, []int{0}, 0},
+			{"full(3,6)x8", 8, 3, 6, nil, 20, []int{0}, 0},
+			{"full(3,6)x9", 9, 3, 6, nil, 15, []int{0}, 0},
 		}
 	}
 	var details []interface{}
